@@ -411,6 +411,7 @@ std::string cmdTr(const std::vector<std::string>& f)
     t.clearStylesheetParams();
     for (size_t i = 0; i < params.size(); ++i)
         t.setStylesheetParam(dom(params[i].first), dom(params[i].second));
+    if (opts.count("conflictwarn")) setenv("XALAN_VERIF_CONFLICT_WARNINGS", "1", 1); else unsetenv("XALAN_VERIF_CONFLICT_WARNINGS");
     if (opts.count("indent")) t.setIndent(atoi(opts["indent"].c_str()));
     if (opts.count("encoding")) t.setOutputEncoding(dom(opts["encoding"]));
 
